@@ -627,9 +627,9 @@ func TestC01(t *testing.T) {
 func TestC02(t *testing.T) {
 	installWedge(t, "C02")
 	p := &profile{prop: "C02", minKeys: 1, maxKeys: 2, methods: []string{"GET", "GET", "HEAD"}, upstreamEnc: true, reloadW: 3, cancelW: 5, twins: true,
-		stores: []string{"", "", "mem"}, cacheSizes: []int{1000, 1000, 100, 1001, 2000}, hfps: []int{0, 1, 2}, proxyTimeouts: []int{0, 1000, 3000, 10000, 500, 1500, 250},
+		stores: []string{"", "", "mem", "fault"}, cacheSizes: []int{1000, 1000, 100, 1001, 2000}, hfps: []int{0, 1, 2}, proxyTimeouts: []int{0, 1000, 3000, 10000, 500, 1500, 250},
 		lifetimes: []int{1, 2, 5}, outcomes: allOutcomes,
-		parkPct: 35, w: [6]int{40, 25, 12, 12, 5, 0}, minOps: 4, maxOps: 40,
+		parkPct: 35, w: [6]int{40, 25, 12, 12, 5, 3}, minOps: 4, maxOps: 40, // store calls may fail (read, write, delete)
 		macros: []string{"burst", "registeredPark", "timeout", "purgeRace", "wokenExpiry"}, macroPct: 12,
 		bodyLens: []int{0, 40}, aes: []string{"", "gzip"}}
 	vstat.Run(t, "C02", "sim", genScenario(p), execSim(t, "C02", func(s *modelStats, tr *trace) bool {
@@ -646,7 +646,8 @@ func TestC03Histories(t *testing.T) {
 		lifetimes: []int{1, 2, 5}, outcomes: []string{"cacheable", "cacheable", "uncacheable", "uncacheable", "status5xx"},
 		parkPct: 15, w: [6]int{45, 28, 17, 8, 2, 0}, minOps: 6, maxOps: 40,
 		macros: []string{"burst", "epochs", "hfpBurst"}, macroPct: 15, reloadW: 2,
-		bodyLens: []int{0, 40}, aes: []string{"", "gzip"}}
+		// bodies above the compress threshold too: what was compressed for one response must not show up in another
+		bodyLens: []int{0, 40, 3000, 2900}, aes: []string{"", "gzip", "gzip", "br"}}
 	vstat.Run(t, "C03", "sim", genScenario(p), execSim(t, "C03", func(s *modelStats, tr *trace) bool {
 		return s.Epochs >= 1 && s.FailedFetches >= 1 && s.Waiters >= 1
 	}, stdClasses))
@@ -742,7 +743,7 @@ func TestC06(t *testing.T) {
 		twoServers: 20, stores: []string{"", "", "mem"}, cacheSizes: []int{8, 8, 16, 24}, hfps: []int{0, 2}, proxyTimeouts: []int{0},
 		lifetimes: []int{2, 60}, outcomes: []string{"cacheable", "cacheable", "cacheable", "uncacheable"},
 		parkPct: 5, w: [6]int{50, 35, 5, 3, 7, 0}, minOps: 10, maxOps: 120,
-		bodyLens: []int{0, 40}, aes: []string{"", "gzip"}}
+		bodyLens: []int{0, 40, 3000, 2900}, aes: []string{"", "gzip", "gzip", "br"}}
 	vstat.Run(t, "C06", "sim", genScenario(p), execSim(t, "C06", func(s *modelStats, tr *trace) bool {
 		return s.Evictions >= 1 && s.Hits+s.Waiters >= 1
 	}, stdClasses))
